@@ -397,11 +397,42 @@ theorem qrandint_counterexample :
   injection hv with hv
   omega
 
-/-- list-valued samples of a quantised integer domain are floats (`np.float64`), not `int`:
-`qrandint(0, 8, 4).sample(size=3)` on draws `1, 5, 7` (second half of F6) -/
-theorem sample_list_quantised_int_counterexample :
+theorem mapM_members {f : Draw → Except Err Val} {P : Val → Prop} (drs : List Draw)
+    (h : ∀ dr ∈ drs, ∃ v, f dr = .ok v ∧ P v) :
+    ∃ vs, drs.mapM f = .ok vs ∧ vs.length = drs.length ∧ ∀ v ∈ vs, P v := by
+  induction drs with
+  | nil => exact ⟨[], rfl, rfl, by simp⟩
+  | cons d ds ih =>
+    obtain ⟨v, hv, hp⟩ := h d (by simp)
+    obtain ⟨vs, hvs, hl, hall⟩ := ih (fun dr hdr => h dr (List.mem_cons_of_mem _ hdr))
+    refine ⟨v :: vs, ?_, by simp [hl], ?_⟩
+    · simp only [List.mapM_cons, hv, hvs, bind, Except.bind, pure, Except.pure]
+    · intro w hw
+      rcases List.mem_cons.mp hw with rfl | hw
+      · exact hp
+      · exact hall w hw
+
+/-- **sample_list_member (partial).** `sample(size = n)`: as many values as draws, each a member
+of the domain (right type included — since the fix of the list branch of `Quantized.sample` also
+for quantised domains).  Same restrictions as `sample_member_partial`. -/
+theorem sample_list_member_partial {env : Env} {c : Consts} {d : Domain} (hok : d.ok = true)
+    {drs : List Draw} (hdr : ∀ dr ∈ drs, DrawOK d dr) (hs : SampleHyp env d) :
+    ∃ vs, d.sampleN env c drs = .ok vs ∧ vs.length = drs.length ∧ ∀ v ∈ vs, d.member env v = true := by
+  have hall : ∀ dr ∈ drs, ∃ v, d.sample env c dr = .ok v ∧ d.member env v = true :=
+    fun dr h => sample_member_partial hok (hdr dr h) hs
+  unfold Domain.sampleN
+  split
+  · rename_i dr
+    obtain ⟨v, hv, hm⟩ := hall dr (by simp)
+    refine ⟨[v], by rw [hv]; rfl, rfl, ?_⟩
+    intro w hw; simp only [List.mem_singleton] at hw; subst hw; exact hm
+  · exact mapM_members drs hall
+
+/-- `qrandint(0, 8, 4).sample(size=3)` on the draws `1, 5, 7`: integers `0, 4, 8` (before the fix
+of `Quantized.sample` these were `np.float64`) -/
+theorem sample_list_quantised_int_example :
     (Domain.int ⟨0, 8, .lin, some 4⟩).sampleN ⟨⟨id, id⟩, ⟨id, id⟩, ⟨id, id⟩⟩ ⟨0, 0, 0⟩
-      [.idx 1, .idx 5, .idx 7] = .ok [.flt 0, .flt 4, .flt 8] := by decide +kernel
+      [.idx 1, .idx 5, .idx 7] = .ok [.int 0, .int 4, .int 8] := by decide +kernel
 
 /-- a one-category nearest-neighbour ordinal (`ordinal([5], kind="nn")`) cannot be sampled:
 `uniform(None, None)` raises `TypeError` -/
@@ -479,20 +510,19 @@ theorem cast_member_id {env : Env} {c : Consts} {d : Domain} (hok : d.ok = true)
 /-! ### JSON form -/
 
 /- Full statement: a space written to JSON and read back is equal and encodes identically.  False
-for reverse-log and quantised domains (the two counterexamples below). -/
-/-- **json (partial).** Every domain that is neither quantised nor reverse-log is restored
-identically by `config_space_from_json_dict (config_space_to_json_dict ·)` — identical domain,
-hence identical encoder (`mkRange` is a function of the domain). -/
-theorem json_roundtrip_partial {d : Domain} (hok : d.ok = true) (hq : isQuantised d = false)
-    (hr : d.isRLog = false) : jsonRoundTrip d = .ok d :=
-  json_roundtrip_dom hok hq hr
+for quantised domains (counterexample below). -/
+/-- **json (partial).** Every domain that is not quantised is restored identically by
+`config_space_from_json_dict (config_space_to_json_dict ·)` — identical domain, hence identical
+encoder (`mkRange` is a function of the domain). Reverse-log domains are included since
+`_ReverseLogUniform.__str__` names its own class. -/
+theorem json_roundtrip_partial {d : Domain} (hok : d.ok = true) (hq : isQuantised d = false) :
+    jsonRoundTrip d = .ok d :=
+  json_roundtrip_dom hok hq
 
-/-- `reverseloguniform(0.1, 0.9)` is read back as `loguniform(0.1, 0.9)`: `str(sampler)` of
-`_ReverseLogUniform` is the inherited `"LogUniform"` -/
-theorem json_rlog_counterexample :
-    jsonRoundTrip (.flt ⟨1 / 10, 9 / 10, .rlog, none⟩) = .ok (.flt ⟨1 / 10, 9 / 10, .log, none⟩) := by
-  have hs : ¬ ("LogUniform" = "Uniform") := by decide
-  norm_num [jsonRoundTrip, toDict, fromDict, samplerStr, samplerOf, hs]
+/-- `reverseloguniform(0.1, 0.9)` is read back as itself -/
+theorem json_rlog_restored :
+    jsonRoundTrip (.flt ⟨1 / 10, 9 / 10, .rlog, none⟩) = .ok (.flt ⟨1 / 10, 9 / 10, .rlog, none⟩) :=
+  json_roundtrip_dom (by decide +kernel) rfl
 
 /-- a quantised domain cannot be written to JSON at all (`sampler_kwargs` holds a sampler object) -/
 theorem json_quantized_counterexample :
@@ -638,6 +668,53 @@ example : ∃ r, mkOneHot [.str "a", .str "b", .str "c", .str "d"] (some [.str "
   simp only [List.length_cons, List.length_nil] at hi
   have : i = 0 ∨ i = 1 ∨ i = 2 ∨ i = 3 := by omega
   rcases this with rfl | rfl | rfl | rfl <;> norm_num
+
+/-- the hypotheses of `roundtrip_partial` / `active_partial` for a log-scaled float domain
+(`loguniform(0.6, 1.6)`) are met by the non-linear stand-in scaling -/
+example : ScalingHyp pwEnv exConsts (.flt ⟨3 / 5, 8 / 5, .log, none⟩) := by
+  have h : ScalingOK pwLog (3 / 5) (8 / 5) := by
+    refine ⟨?_, ?_, ?_⟩
+    · intro y h1 h2
+      simp only [pwLog]
+      by_cases hy : y ≤ 1
+      · have : (y - 3 / 5) * (13 / 10) ≤ 13 / 25 := by linarith
+        simp only [hy, this, if_true]; ring
+      · have : ¬ (13 / 25 + (y - 1) * (4 / 5) ≤ 13 / 25) := by rw [not_le] at hy ⊢; linarith
+        simp only [hy, this, if_false]; ring
+    · intro y z h1 h2 h3
+      simp only [pwLog]
+      by_cases hy : y ≤ 1 <;> by_cases hz : z ≤ 1 <;> simp only [hy, hz, if_true, if_false] <;>
+        (try rw [not_le] at hy) <;> (try rw [not_le] at hz) <;> linarith
+    · intro t u h1 h2 h3
+      simp only [pwLog] at h1 h3 ⊢
+      by_cases ht : t ≤ 13 / 25 <;> by_cases hu : u ≤ 13 / 25 <;> simp only [ht, hu, if_true, if_false] <;>
+        (try rw [not_le] at ht) <;> (try rw [not_le] at hu) <;> linarith
+  exact ⟨h.inv, h.mono, h.monoFrom⟩
+
+/-! degenerate but legal domains: accepted, and the theorems apply to them -/
+
+/-- `uniform(2.5, 2.5)`: encodes to 0, every admissible `x` decodes to 2.5, bounds `(0, 0)` -/
+example : (mkRange exEnv exConsts ⟨"x", .flt ⟨5 / 2, 5 / 2, .lin, none⟩, none⟩).map
+    (fun r => (r.bounds, r.encode exEnv exConsts (.flt (5 / 2)), r.decode exEnv exConsts [1], r.decode exEnv exConsts [0]))
+    = .ok ([(0, 0)], .ok [0], .ok (.flt (5 / 2)), .ok (.flt (5 / 2))) := by decide +kernel
+
+/-- `randint(7, 7)` -/
+example : (mkRange exEnv exConsts ⟨"x", .int ⟨7, 7, .lin, none⟩, none⟩).map
+    (fun r => (r.decode exEnv exConsts [0], r.decode exEnv exConsts [1], r.decode exEnv exConsts [1 / 2]))
+    = .ok (.ok (.int 7), .ok (.int 7), .ok (.int 7)) := by decide +kernel
+
+/-- `choice(["only"])`: one-hot of size one with bounds `(1, 1)` -/
+example : (mkRange exEnv exConsts ⟨"x", .cat ⟨[.str "only"], false⟩, none⟩).map
+    (fun r => (r.size, r.bounds, r.encode exEnv exConsts (.str "only"), r.decode exEnv exConsts [0]))
+    = .ok (1, [(1, 1)], .ok [1], .ok (.str "only")) := by decide +kernel
+
+/-- `ordinal([3], kind="equal")` and `finrange(0.5, 0.5, 1)` -/
+example : (mkRange exEnv exConsts ⟨"x", .cat ⟨[.int 3], true⟩, none⟩).map
+    (fun r => (r.decode exEnv exConsts [0], r.decode exEnv exConsts [1])) = .ok (.ok (.int 3), .ok (.int 3)) := by
+  decide +kernel
+example : (mkRange exEnv exConsts ⟨"x", .fin ⟨1 / 2, 1 / 2, 1, false, false⟩, none⟩).map
+    (fun r => (r.decode exEnv exConsts [0], r.decode exEnv exConsts [1], r.encode exEnv exConsts (.flt (1 / 2))))
+    = .ok (.ok (.flt (1 / 2)), .ok (.flt (1 / 2)), .ok [1 / 2]) := by decide +kernel
 
 end Examples
 
